@@ -646,6 +646,9 @@ func init() {
 					}
 					names := []string{a.Name, b.Name}
 					c.Case(idx, func() json.RawMessage { return mc.J(c16Case{Part: "concurrent", Requests: names}) })
+					// (the first case of a worker also computes the answers of every request served
+					// alone, each in a fresh process: seconds on an idle machine, more on a busy one)
+					c.AllowSlow(150)
 					c16CheckConc(c, names, 12)
 				}
 			}
